@@ -55,6 +55,18 @@ def Node.isSeg : Node → Bool
   | .seg .. => true
   | .loop .. => false
 
+def Node.usage : Node → Nat
+  | .seg _ _ _ u _ _ _ => u
+  | .loop _ _ u _ _ _ => u
+
+def Node.rep : Node → Nat
+  | .seg _ _ _ _ m _ _ => m
+  | .loop _ _ _ r _ _ => r
+
+def Node.children : Node → List Node
+  | .seg .. => []
+  | .loop _ _ _ _ _ ch => ch
+
 /-! ### element-level well-formedness -/
 
 def usageWF (u : Nat) : Bool := decide (u ≤ 2)
